@@ -127,6 +127,11 @@ def run_case(spec, ctx):
                 want_missing = dict(other.missing_variables)
             except Exception:
                 continue
+            if want_missing and spec["i"] % 2 == 1:
+                # any layout may be requested for the handed-over array: here the reverse of the other model's numbering
+                n_ = len(want_missing)
+                want_missing = {k_: n_ - 1 - v_ for k_, v_ in want_missing.items()}
+                cn["reversed_missing_values_layouts"] = cn.get("reversed_missing_values_layouts", 0) + 1
             sch = ["explicit_euler"]
             oc = B.generate(be, sub, schemes=sch, missing_values=want_missing if want_missing else None, remove_unused=bool(spec.get("remove_unused")))
             if not oc.ok:
